@@ -129,7 +129,14 @@ def build_history(rng, srv, spool):
         advance(te)
         if kind == "add":
             uid, text, lim = pl
-            data = vcal([text]).encode()
+            data = vcal([text])
+            if lim not in (None, "global") and rng.random() < 0.25:
+                # the calendar has a default of its own, which is for tasks that say nothing; the task may come as a VTODO
+                other = rng.choice([x for x in (1, 2, 3, 5, 62) if x != lim])
+                data = data.replace("VERSION:2.0\n", "VERSION:2.0\nX-ECHS-MAX-SIMUL:%d\n" % other, 1)
+                if rng.random() < 0.5:
+                    data = data.replace("BEGIN:VEVENT", "BEGIN:VTODO").replace("END:VEVENT", "END:VTODO")
+            data = data.encode()
             sc.req(owner, data)
             occ, more = occurrences(srv, text, t_end + 10)
             lst = incs.setdefault(uid, [])
